@@ -83,7 +83,12 @@ def staged_validate(run, module, cfg, traces, behs, **kw):
         chunk = traces[start:start + size]
         if not chunk:
             break
-        run.validate(module, cfg, chunk, behs[start:start + size], **kw)
+        kw2 = dict(kw)
+        if start != 6:
+            # the informational conformance run (code == mechanism model) is made on one chunk only:
+            # it finds mismatching traces one TLC run at a time
+            kw2.pop("conf_cfg", None)
+        run.validate(module, cfg, chunk, behs[start:start + size], **kw2)
         start += size
         if run.violations:
             v.log("violation found: skipping the remaining %d trace(s) of this group" % max(0, len(traces) - start))
